@@ -56,9 +56,12 @@ static const char *const sigma[] = {
     "0", "a-b",
     R10("lorem ipsum "),
     R10(R10("k")),
-    R10("word word ") "\n second line " R10("more text "),
-    " lead " R10("word word ") "\n  indented " R10("more text ") "\nend",
-    "\n   " R10("after a blank first line ") "\n",
+    /* lines that do not end in a space (a space before a line break rules
+       the block styles out and would hide what they do) */
+    R10("word word ") "end\n second line " R10("more text ") "end",
+    " lead " R10("word word ") "end\n  indented " R10("more text ") "end\nend",
+    "\n   " R10("after a blank first line ") "end\n",
+    "first\n  " R10(R10("ab ")) "end\n    deeper " R10(R10("cd ")) "end\nlast",
     R10("nospacesatall") "\n" R10("nospacesatall"),
     R10(R10(R10("k"))) R10(R10("k")),
     R10(R10("eleven ch. ")),
